@@ -6,18 +6,30 @@ import (
 	"testing"
 
 	"github.com/gauss-project/aurorafs/pkg/boson"
+	"github.com/gauss-project/aurorafs/pkg/file/loadsave"
+	"github.com/gauss-project/aurorafs/pkg/file/pipeline"
+	"github.com/gauss-project/aurorafs/pkg/file/pipeline/builder"
+	"github.com/gauss-project/aurorafs/pkg/manifest"
 	"github.com/gauss-project/aurorafs/pkg/storage"
 
 	"verif/harness/internal/filekit"
+	"verif/harness/internal/memstore"
 	"verif/harness/internal/obs"
 	"verif/harness/internal/spec"
 )
 
-// vstore serves the chunks of a virtual file (filekit.VTree); nothing is ever put.
-type vstore struct{ *filekit.VTree }
+// vstore holds the real chunks of a manifest and serves the chunks of a virtual file
+// (filekit.VTree) the manifest refers to.
+type vstore struct {
+	*memstore.Store
+	v *filekit.VTree
+}
 
-func (vstore) Put(context.Context, storage.ModePut, ...boson.Chunk) ([]bool, error) {
-	return nil, fmt.Errorf("virtual store: put not expected")
+func (s vstore) Get(ctx context.Context, mode storage.ModeGet, a boson.Address) (boson.Chunk, error) {
+	if ch, err := s.Store.Get(ctx, mode, a); err == nil {
+		return ch, nil
+	}
+	return s.v.Get(ctx, mode, a)
 }
 
 // TestDeepFiles: files with more than one level of intermediate chunks (more than 8192
@@ -71,7 +83,29 @@ func TestDeepFiles(t *testing.T) {
 			dangling = true
 		}
 		run.Stat("virtual_tree_chunks", int64(len(written)))
-		checkRoot(c, run, vstore{v}, v.RootRef(), written, d, [][]string{leaves})
+		// the file is referenced from a real one-entry manifest, as every uploaded file is (a
+		// bare file reference would first be read completely as a would-be manifest)
+		ctx := context.Background()
+		st := memstore.New()
+		ls := loadsave.New(st, func() pipeline.Interface { return builder.NewPipelineBuilder(ctx, st, storage.ModePutUpload, false) })
+		m, err := manifest.NewDefaultManifest(ls, false)
+		if err != nil {
+			t.Fatal(err)
+		}
+		if err := m.Add(ctx, manifest.RootPath, manifest.NewEntry(boson.ZeroAddress, map[string]string{manifest.WebsiteIndexDocumentSuffixKey: "big.bin"})); err != nil {
+			t.Fatal(err)
+		}
+		if err := m.Add(ctx, "big.bin", manifest.NewEntry(v.RootRef(), map[string]string{manifest.EntryMetadataFilenameKey: "big.bin"})); err != nil {
+			t.Fatal(err)
+		}
+		mroot, err := m.Store(ctx)
+		if err != nil {
+			t.Fatal(err)
+		}
+		for a := range putSet(st) {
+			written[a] = true
+		}
+		checkRoot(c, run, vstore{st, v}, mroot, written, d, [][]string{leaves})
 		if _, unknown := v.Gets(); unknown > 0 {
 			c.Viol("traversal-fetches-something-that-is-no-chunk-of-the-file", fmt.Sprintf("%d requests named an address that is no chunk of the file", unknown), map[string]interface{}{"bytes": n})
 		}
